@@ -93,7 +93,8 @@ class FormBMat(Contract):
         yield 'valid_cell', valid_cell(c)
 
     def result_spec(self, c):
-        return NPM.array(Bspec(c, self.K() if symbolic_mode() else self.Knum()))
+        # at call sites the entries of B get names of their own (definitions are unfolded only where a proof needs them)
+        return NPM.array(named('Bm', Bspec(c, self.K() if symbolic_mode() else self.Knum())))
 
     def ensures(self, c, Bm):
         K = self.K() if symbolic_mode() else self.Knum()
@@ -177,7 +178,10 @@ class AToCell(Contract):
         yield 'lengths_positive', conj(c[0] > 0, c[1] > 0, c[2] > 0)
         yield 'angle_range', conj(c[3] >= 0, c[3] <= 180, c[4] >= 0, c[4] <= 180, c[5] >= 0, c[5] <= 180)
         yield 'sines_nonneg', conj(sind(c[3]) >= 0, sind(c[4]) >= 0, sind(c[5]) >= 0)
-        yield from named_mat_eq('metric', G(c), g)                       # G(result) = A'A
+        Gc = G(c)
+        for i in range(3):
+            for j in range(i, 3):                                        # G(result) = A'A  (both symmetric)
+                yield 'metric[%d,%d]' % (i, j), Eq(Gc[i][j], g[i][j])
 
 
 @register(*BOTH)
@@ -700,3 +704,373 @@ class UToEuler(Contract):
                 T.ctx().notes.append('u_to_euler: gimbal-lock paths are covered by the bounded stand-in')
         else:
             yield from named_mat_eq('rebuilds_U', Rb, U, 1e-6 / 3)
+
+
+# ---------------------------------------------------------------------------
+# C02 -- U, B, UBI
+
+class GhostStub:
+    """call-site stub of a contract that has ghost parameters: the caller supplies the ghosts"""
+
+    def __init__(self, contract, *ghost):
+        self.k, self.ghost = contract, ghost
+
+    def __call__(self, *actual):
+        k = self.k
+        c = T.ctx()
+        site = c.fresh('call_%s' % k.name)
+        for nm, cond in k.call_requires(*(list(self.ghost) + list(actual))):
+            c.oblige('%s.requires.%s' % (site.replace('!', '@'), nm), cond)
+        c.notes.append('callee contract used (ghost-instantiated): %s' % k.qualname())
+        return k.call_result(*self.ghost)
+
+
+def Kof(self):
+    return self.K() if symbolic_mode() else self.Knum()
+
+
+def ubi_spec(U, c, K):
+    """UBI = K (U B)^-1"""
+    if symbolic_mode():
+        # B through form_b_mat's (proved) contract: named entries with upper_pos known
+        from pyvc.engine import REGISTRY, CallStub
+        module = 'laue' if T.is_num(K) else 'tools'
+        Bn = entries(CallStub(None, REGISTRY[(module, 'form_b_mat')])(c))
+    else:
+        Bn = Bspec(c, K)
+    UB = mm(U, Bn)
+    if symbolic_mode():
+        inv = NPM.inv(NPM.array(UB))
+        return [[K * x for x in row] for row in inv.tolist()]
+    import numpy as np
+    return (K * np.linalg.inv(np.array(UB, float))).tolist()
+
+
+@register(*BOTH)
+class UToUbi(Contract):
+    name = 'u_to_ubi'
+    signature = [('U_matrix', Rot()), ('unit_cell', Cell())]
+
+    def requires(self, U, c):
+        yield 'is_rotation', is_rotation(U)
+        yield 'valid_cell', valid_cell(c)
+
+    def sign_hints(self, U, c):
+        Bm = Bspec(c, Kof(self))
+
+        def lazy():
+            Bn = named('Bm', Bspec(c, Kof(self)))
+            return det3(U) * Bn[0][0] * Bn[1][1] * Bn[2][2]
+        return [lazy, Bm[0][0] * Bm[1][1] * Bm[2][2],
+                det3(U) * Bm[0][0] * Bm[1][1] * Bm[2][2]]
+
+    def result_spec(self, U, c):
+        return NPM.array(ubi_spec(U, c, Kof(self)))
+
+    def ensures(self, U, c, ubi):
+        K = Kof(self)
+        UB = mm(U, named('Bm', Bspec(c, K)))
+        # the rows of UBI are the real-space lattice vectors: UBI.(U.B.hkl) = K.hkl for every hkl      (C02)
+        yield from named_mat_eq('ubi_times_UB_is_K_identity', mm(ubi, UB), smul(K, I3))
+        yield from named_mat_eq('UB_times_ubi_is_K_identity', mm(UB, ubi), smul(K, I3))
+
+
+@register(*BOTH)
+class UbiToCellRoundtrip(Contract):
+    """ghosts U0, c0: the UBI of a rotation and a valid cell gives back the cell"""
+    name = 'ubi_to_cell'
+    key = 'ubi_to_cell#of_u_to_ubi'
+    signature = [('U0', Rot()), ('c0', Cell())]
+
+    def requires(self, U0, c0):
+        yield 'is_rotation', is_rotation(U0)
+        yield 'valid_cell', valid_cell(c0)
+
+    def actuals(self, U0, c0):
+        m = ubi_spec(U0, c0, Kof(self))
+        if symbolic_mode():
+            return [NPM.array(m)]
+        import numpy as np
+        return [np.array(m, float)]
+
+    def sign_hints(self, U0, c0):
+        Bm = Bspec(c0, Kof(self))
+
+        def lazy():
+            Bn = named('Bm', Bspec(c0, Kof(self)))        # evaluated when used: re-uses the names the code introduced
+            return det3(U0) * Bn[0][0] * Bn[1][1] * Bn[2][2]
+        return [lazy, Bm[0][0] * Bm[1][1] * Bm[2][2],
+                det3(U0) * Bm[0][0] * Bm[1][1] * Bm[2][2], c0[0] * c0[0], c0[1] * c0[1], c0[2] * c0[2]]
+
+    def call_requires(self, U0, c0, ubi):
+        yield from named_mat_eq('ubi_is_K_inverse_UB', ubi, ubi_spec(U0, c0, Kof(self)))
+
+    def call_result(self, U0, c0):
+        return NPM.array(list(c0)) if False else list(c0)
+
+    def ensures(self, U0, c0, c):
+        c = vlist(c)
+        if symbolic_mode():
+            for i in (3, 4, 5):
+                axiom_cos_injective_deg(c[i], c0[i])
+        # helper (cut): the metric of the result is the metric of c0 ...
+        ubi = ubi_spec(U0, c0, Kof(self))
+        yield from named_mat_eq('ubi_ubiT_is_metric_of_c0', mm(ubi, tr(ubi)), G(c0))
+        # ... lengths, then cosines, then angles (cos is injective on [0,180])
+        for i, nm in enumerate(['a', 'b', 'c']):
+            yield 'returns_' + nm, Eq(c[i], c0[i])
+        for i, nm in ((3, 'alpha'), (4, 'beta'), (5, 'gamma')):
+            yield 'cos_' + nm, Eq(cosd(c[i]), cosd(c0[i]))
+            yield 'returns_' + nm, Eq(c[i], c0[i])
+
+
+@register(*BOTH)
+class UbiToURoundtrip(Contract):
+    """ghosts U0, c0: ubi_to_u(u_to_ubi(U0, c0)) == U0"""
+    name = 'ubi_to_u'
+    key = 'ubi_to_u#of_u_to_ubi'
+    signature = [('U0', Rot()), ('c0', Cell())]
+    requires = UbiToCellRoundtrip.requires
+    actuals = UbiToCellRoundtrip.actuals
+    sign_hints = UbiToCellRoundtrip.sign_hints
+
+    def extra_ns(self, U0, c0):
+        from pyvc.engine import REGISTRY
+        return {'ubi_to_cell': GhostStub(REGISTRY[(self.module, 'ubi_to_cell#of_u_to_ubi')], U0, c0)}
+
+    def call_requires(self, U0, c0, ubi):
+        yield from named_mat_eq('ubi_is_K_inverse_UB', ubi, ubi_spec(U0, c0, Kof(self)))
+
+    def call_result(self, U0, c0):
+        return NPM.array(entries(U0))
+
+    def ensures(self, U0, c0, U):
+        yield from named_mat_eq('returns_U', U, U0)
+
+
+@register(*BOTH)
+class UbiToRodRoundtrip(Contract):
+    name = 'ubi_to_rod'
+    key = 'ubi_to_rod#of_u_to_ubi'
+    signature = [('U0', Rot()), ('c0', Cell())]
+    actuals = UbiToCellRoundtrip.actuals
+    sign_hints = UbiToCellRoundtrip.sign_hints
+
+    def requires(self, U0, c0):
+        yield 'is_rotation', is_rotation(U0)
+        yield 'valid_cell', valid_cell(c0)
+        Ue = entries(U0)
+        yield 'not_half_turn', 1 + Ue[0][0] + Ue[1][1] + Ue[2][2] >= T.Fraction(1, 10 ** 12)
+
+    def extra_ns(self, U0, c0):
+        from pyvc.engine import REGISTRY
+        return {'ubi_to_u': GhostStub(REGISTRY[(self.module, 'ubi_to_u#of_u_to_ubi')], U0, c0)}
+
+    def ensures(self, U0, c0, r):
+        rr = vlist(r)
+        yield from named_mat_eq('rod_to_u_of_result_is_U', tr(rod_active(rr)), U0)
+
+
+def det_pos_sampler(rng):
+    import numpy as np
+    while True:
+        M = np.array([[rng.uniform(-3, 3) for _ in range(3)] for _ in range(3)])
+        if np.linalg.det(M) > 0.2 and np.linalg.cond(M) < 1e3:
+            return M.tolist()
+
+
+@register(*BOTH)
+class UbToUB(Contract):
+    name = 'ub_to_u_b'
+    signature = [('UB_matrix', Mat(3, 3, Real(-3, 3), det_pos_sampler))]
+    let_abstraction = False
+
+    def requires(self, M):
+        yield 'positive_determinant', det3(M) > 0
+
+    def ensures(self, M, res):
+        U, Bm = res[0], res[1]
+        yield from named_mat_eq('product_is_UB', mm(U, Bm), M)
+        UtU = mm(tr(U), U)
+        for i in range(3):
+            for j in range(i, 3):
+                yield 'U_orthonormal[%d,%d]' % (i, j), Eq(UtU[i][j], 1 if i == j else 0)
+        Be = entries(Bm)
+        yield 'B_upper_triangular', conj(Eq(Be[1][0], 0), Eq(Be[2][0], 0), Eq(Be[2][1], 0))
+        yield 'B_positive_diagonal', conj(Be[0][0] > 0, Be[1][1] > 0, Be[2][2] > 0)
+        # helper (cut): det U * det B = det M, det B > 0, det U in {+1,-1}
+        yield 'det_product', Eq(det3(U) * Be[0][0] * Be[1][1] * Be[2][2], det3(M))
+        g = named('gram', UtU)
+        d = named('detU', det3(U))
+        p = named('detB', Be[0][0] * Be[1][1] * Be[2][2])
+        yield 'det_of_gram_is_one', Eq(det3(g), 1)
+        yield 'det_U_squared_is_det_of_gram', Eq(det3(U) * det3(U), det3(UtU))        # Binet: a polynomial identity
+        yield 'det_U_squared', Eq(d * d, 1)
+        yield 'det_B_positive', p > 0
+        yield 'det_product_named', Eq(d * p, det3(M))
+        yield 'det_U_is_plus_one', Eq(d, 1)
+        yield 'U_proper', Eq(det3(U), 1)
+
+
+@register(*BOTH)
+class UbiToCell(Contract):
+    """general contract: the cell whose metric tensor is UBI.UBI' (the rows of UBI are the lattice vectors)"""
+    name = 'ubi_to_cell'
+    signature = [('ubi_matrix', Mat(3, 3, Real(-6, 6)))]
+
+    def requires(self, ubi):
+        g = mm(ubi, tr(ubi))
+        yield 'nondegenerate_rows', conj(g[0][0] > 0, g[1][1] > 0, g[2][2] > 0)
+
+    def ensures(self, ubi, c):
+        c = vlist(c)
+        g = mm(ubi, tr(ubi))
+        Gc = G(c)
+        yield 'lengths_positive', conj(c[0] > 0, c[1] > 0, c[2] > 0)
+        yield 'angle_range', conj(c[3] >= 0, c[3] <= 180, c[4] >= 0, c[4] <= 180, c[5] >= 0, c[5] <= 180)
+        for i in range(3):
+            for j in range(i, 3):
+                yield 'metric_is_ubi_ubiT[%d,%d]' % (i, j), Eq(Gc[i][j], g[i][j])
+
+
+# ---------------------------------------------------------------------------
+# C13 -- strain <-> B
+
+EPS = Vec(6, Real(-0.1, 0.1, special=(0.0,)), as_list=True)
+
+
+def Bn_of(self, c):
+    """B of the unstrained cell through form_b_mat's contract (named entries)"""
+    if symbolic_mode():
+        from pyvc.engine import REGISTRY, CallStub
+        return entries(CallStub(None, REGISTRY[(self.module, 'form_b_mat')])(c))
+    return Bspec(c, self.Knum())
+
+
+def inv_upper(Bm):
+    """inverse of an upper-triangular matrix in closed form"""
+    b = entries(Bm)
+    i00, i11, i22 = 1 / b[0][0], 1 / b[1][1], 1 / b[2][2]
+    i01 = -b[0][1] * i00 * i11
+    i12 = -b[1][2] * i11 * i22
+    i02 = (b[0][1] * b[1][2] - b[0][2] * b[1][1]) * i00 * i11 * i22
+    return [[i00, i01, i02], [0, i11, i12], [0, 0, i22]]
+
+
+def strain_spec(Bm, B0):
+    """[e11, e12, e13, e22, e23, e33] of sym(B0 . B^-1) - I   (B upper triangular)"""
+    Tm = mm(B0, inv_upper(Bm))
+    e = [[(Tm[i][j] + Tm[j][i]) / 2 - (1 if i == j else 0) for j in range(3)] for i in range(3)]
+    return [e[0][0], e[0][1], e[0][2], e[1][1], e[1][2], e[2][2]]
+
+
+def eps_small(eps):
+    return conj(*[conj(e >= T.Fraction(-1, 10), e <= T.Fraction(1, 10)) for e in eps])
+
+
+@register(*BOTH)
+class EpsilonToB(Contract):
+    name = 'epsilon_to_b'
+    signature = [('epsilon', EPS), ('unit_cell', Cell())]
+
+    def requires(self, eps, c):
+        yield 'valid_cell', valid_cell(c)
+        yield 'strain_components_at_most_0.1', eps_small(eps)
+
+    def sign_hints(self, eps, c):
+        return [lambda: (lambda B0: (eps[0] + 1) * (eps[3] + 1) * (eps[5] + 1) / (B0[0][0] * B0[1][1] * B0[2][2]))(
+            named('Bm', Bspec(c, Kof(self))))]
+
+    def ensures(self, eps, c, Bm):
+        B0 = Bn_of(self, c)
+        Be = entries(Bm)
+        yield 'upper_triangular', conj(Eq(Be[1][0], 0), Eq(Be[2][0], 0), Eq(Be[2][1], 0))
+        yield 'diag_00', Eq(Be[0][0] * (eps[0] + 1), B0[0][0])
+        yield 'diag_11', Eq(Be[1][1] * (eps[3] + 1), B0[1][1])
+        yield 'diag_22', Eq(Be[2][2] * (eps[5] + 1), B0[2][2])
+        yield 'positive_diagonal', conj(Be[0][0] > 0, Be[1][1] > 0, Be[2][2] > 0)
+        # b_to_epsilon inverts it: the strain of the result w.r.t. the unstrained cell is epsilon      (C13)
+        st = strain_spec(Be, B0)
+        for i, nm in enumerate(['e11', 'e12', 'e13', 'e22', 'e23', 'e33']):
+            yield 'strain_of_result_is_' + nm, Eq(st[i], eps[i])
+
+
+@register(*BOTH)
+class EpsilonToBZero(Contract):
+    name = 'epsilon_to_b'
+    key = 'epsilon_to_b#zero_strain'
+    signature = [('unit_cell', Cell())]
+
+    def requires(self, c):
+        yield 'valid_cell', valid_cell(c)
+
+    def actuals(self, c):
+        return [[0, 0, 0, 0, 0, 0], c]
+
+    def ensures(self, c, Bm):
+        yield from named_mat_eq('zero_strain_gives_unstrained_B', Bm, Bn_of(self, c))
+
+
+class UpperPos(Mat):
+    def __init__(self):
+        Mat.__init__(self, 3, 3, Real(-1, 1))
+
+    def sym(self, name):
+        ent = []
+        for i in range(3):
+            for j in range(3):
+                ent.append(T.real('%s_%d%d' % (name, i, j)) if j >= i else 0)
+        return NPM.SArr((3, 3), ent)
+
+    def sample(self, rng):
+        return [[(rng.uniform(0.1, 1.0) if i == j else rng.uniform(-0.3, 0.3)) if j >= i else 0.0 for j in range(3)] for i in range(3)]
+
+    def env(self, name, value, env):
+        for i in range(3):
+            for j in range(i, 3):
+                env['%s_%d%d' % (name, i, j)] = float(value[i][j])
+
+
+@register(*BOTH)
+class BToEpsilon(Contract):
+    name = 'b_to_epsilon'
+    signature = [('B_matrix', UpperPos()), ('unit_cell', Cell())]
+
+    def requires(self, Bm, c):
+        Be = entries(Bm)
+        yield 'valid_cell', valid_cell(c)
+        yield 'positive_diagonal', conj(Be[0][0] > 0, Be[1][1] > 0, Be[2][2] > 0)
+
+    def sign_hints(self, Bm, c):
+        Be = entries(Bm)
+        return [Be[0][0] * Be[1][1] * Be[2][2]]
+
+    def ensures(self, Bm, c, eps):
+        # the strain returned for a B matrix is sym(B0 . inv(B)) - I      (C13)
+        st = strain_spec(entries(Bm), Bn_of(self, c))
+        for i, nm in enumerate(['e11', 'e12', 'e13', 'e22', 'e23', 'e33']):
+            yield 'is_sym_B0_Binv_minus_I_' + nm, Eq(eps[i], st[i])
+
+
+@register(*BOTH)
+class EpsilonToBOfStrain(Contract):
+    """ghost B (upper triangular, positive diagonal): epsilon_to_b(b_to_epsilon(B)) == B"""
+    name = 'epsilon_to_b'
+    key = 'epsilon_to_b#of_b_to_epsilon'
+    signature = [('Bg', UpperPos()), ('unit_cell', Cell())]
+
+    def requires(self, Bg, c):
+        Be = entries(Bg)
+        yield 'valid_cell', valid_cell(c)
+        yield 'positive_diagonal', conj(Be[0][0] > 0, Be[1][1] > 0, Be[2][2] > 0)
+
+    def actuals(self, Bg, c):
+        return [strain_spec(entries(Bg), Bn_of(self, c)), c]
+
+    def sign_hints(self, Bg, c):
+        Be = entries(Bg)
+        return [lambda: (lambda B0: 1 / (Be[0][0] * Be[1][1] * Be[2][2]))(None),
+                Be[0][0] * Be[1][1] * Be[2][2]]
+
+    def ensures(self, Bg, c, Bm):
+        yield from named_mat_eq('returns_B', Bm, Bg)
